@@ -367,6 +367,35 @@ def other_observations(tier):
                             'ref': ref, '_vec': {'kind': kind, 'route': 'cli ' + ' '.join(flags), 'opts': sorted(kw)}})
             finally:
                 shutil.rmtree(tmp, ignore_errors=True)
+    # ONE symbol object, one route after the other with options that compare equal but are different requests ((r, g, b, 1) is nearly
+    # transparent, (r, g, b, 1.0) opaque; scale 2 / 2.0 print differently in SVG): every call serialises what IT was given
+    shared = segno.make(CONTENT, micro=False)
+    for kind, kw in (('png', {'dark': (255, 0, 0, 1)}), ('png', {'dark': (255, 0, 0, 1.0)}), ('png', {'dark': (255, 0, 0, 1)}), ('svg', {'scale': 2}), ('svg', {'scale': 2.0}),
+                     ('svg', {'scale': 2}), ('png', {'scale': 2}), ('png', {'scale': 2.0}), ('png', {'scale': 2.9}), ('svg', {'dark': (0, 0, 200, 1.0)}), ('svg', {'dark': (0, 0, 200, 1)}),
+                     ('svg', {'border': 0}), ('svg', {'border': False}), ('svg', {'border': 0}), ('png', {'border': 1}), ('png', {'border': True}), ('png', {'border': 1.0})):
+        for route in ('data_uri', 'inline') if kind == 'svg' else ('data_uri',):
+            try:
+                fresh = segno.make(CONTENT, micro=False)
+                forced = {'xmldecl': False, 'nl': False} if route == 'data_uri' else {'xmldecl': False, 'svgns': False, 'nl': False}
+                ref = normalise(kind, save_stream(fresh, kind, dict(kw, **(forced if kind == 'svg' else {}))))
+                if kind == 'svg' and route == 'data_uri':
+                    ref = canonical_xml(ref, 'utf-8')
+                ref = digest(ref)
+            except Exception as e:  # noqa
+                ref = failure(e)
+            try:
+                if kind == 'png':
+                    got = base64.b64decode(shared.png_data_uri(**kw).split(',', 1)[1])
+                elif route == 'data_uri':
+                    got = canonical_xml(urllib.parse.unquote_to_bytes(shared.svg_data_uri(**kw).split(',', 1)[1]), 'utf-8')
+                else:
+                    got = shared.svg_inline(**kw).encode('utf-8')
+                got = digest(normalise(kind, got))
+            except Exception as e:  # noqa
+                got = failure(e)
+            rf = [] if kind == 'png' else ['nl_false', 'xmldecl_false'] if route == 'data_uri' else ['nl_false', 'svgns_false', 'xmldecl_false']
+            obs.append({'family': 'route', 'kind': kind, 'route': route, 'opts': sorted(kw), 'ref_given': sorted(kw), 'ref_forced': rf, 'prefix_ok': True,
+                        'exit': 0, 'got': got, 'ref': ref, '_vec': {'kind': kind, 'route': f'{route} of one shared symbol object with {kw!r}', 'opts': sorted(kw)}})
     # data URIs of SVG documents whose texts / attributes contain quote characters
     for extra in ({'title': 'say "hi"'}, {'title': 'a="b" c'}, {'desc': "it's"}, {'svgclass': "it's"}, {'svgid': 'x'}):
         vec = {'kind': 'svg', 'route': 'data_uri', 'opts': [], 'given': [], 'forced': ['xmldecl_false', 'nl_false']}
